@@ -153,7 +153,7 @@ func indexString(index *search.TreeIndex, features map[b6.FeatureID]ingest.Featu
 
 // PrivateKey renders ALL state the overlay holds: the features map (concrete
 // types, tags in slice order, with value kinds), the ModifiedTags map incl.
-// deleted markers, the references map (slice order, path indices) and the
+// deleted markers, the references map (path indices; each slice sorted, its order being an artefact of map iteration inside the implementation) and the
 // index (every token with its posting list contents and object identity). Go maps are rendered sorted (their order is unobservable). The
 // epoch counter is omitted: it is only compared with the epoch captured by a
 // live iterator, and no iterator is alive across operations.
@@ -187,15 +187,19 @@ func PrivateKey(w *ingest.MutableOverlayWorld) string {
 	}
 	b.WriteString("\nreferences:")
 	for _, id := range sortedIDs(references) {
-		fmt.Fprintf(&b, "\n %s<-[", IDName(id))
+		// The order of a reference slice follows Go map iteration order inside
+		// the implementation (allReferences ranges over a map), so it differs
+		// from run to run and is rendered sorted.
+		var parts []string
 		for _, r := range references[id] {
 			if ir, ok := r.(b6.IndexedReference); ok {
-				fmt.Fprintf(&b, "%s@%d ", IDName(r.Source()), ir.Index())
+				parts = append(parts, fmt.Sprintf("%s@%d", IDName(r.Source()), ir.Index()))
 			} else {
-				fmt.Fprintf(&b, "%s ", IDName(r.Source()))
+				parts = append(parts, IDName(r.Source()))
 			}
 		}
-		b.WriteString("]")
+		sort.Strings(parts)
+		fmt.Fprintf(&b, "\n %s<-[%s]", IDName(id), strings.Join(parts, " "))
 	}
 	b.WriteString("\nindex:")
 	b.WriteString(indexString(index, features, true))
